@@ -10,6 +10,7 @@ import Hw.Topo.RestrictTyping
 import Hw.Topo.RestrictSurvive
 import Hw.Topo.WFTree
 import Hw.Topo.RenderTop
+import Hw.Topo.RenderSets
 namespace Hw.Topo.Restrict
 open Hw.Topo
 
@@ -662,6 +663,22 @@ theorem treeOf_machineOnce {d : Dump} (h : WF d) (t : Tree) (ht : treeOf d = .ok
 
 theorem machineOnce_restrict (t : Topo) (s : CSet) (flags : Nat) (h : machineOnce t.tree) : machineOnce (restrict t s flags).1.tree :=
   Nat.le_trans (cnt_restrict (fun x => x.type) tMACHINE t s flags (fun p o => type_shrinkG p o) (fun _ _ => rfl)) h
+
+/-- … and every object of the tree carries sets iff it is neither I/O nor Misc (C01 clause sets-presence) -/
+theorem treeOf_setsPres {d : Dump} (h : WF d) (t : Tree) (ht : treeOf d = .ok t) : setsPresT t = true := by
+  unfold setsPresT
+  rw [List.all_eq_true]
+  intro x hx
+  obtain ⟨c, hc, rfl⟩ := List.mem_map.1 ((treeOf_perm h t ht).mem_iff.1 hx)
+  have h1 := h.obj_sets_presence hc
+  show (c.cpuset.isSome == !isSpecial c.type) = true
+  cases hs : isSpecial c.type
+  · rw [hs] at h1
+    simp only [Bool.false_eq_true, if_false, Bool.and_eq_true] at h1
+    rw [h1.1.1.1]; rfl
+  · rw [hs] at h1
+    simp only [if_true, Bool.and_eq_true, Option.isNone_iff_eq_none] at h1
+    rw [h1.1.1.1]; rfl
 
 theorem robjOf_osBit (c : Obj) : osBit (robjOf c) = single c.osidx.toNat := rfl
 
